@@ -29,8 +29,8 @@ const REFS: [(&str, &str); 11] = [
     ("refs/heads/a", "c1"),
     ("refs/tags/ann", "tag_ann"),
     ("refs/heads/sym", "ref: refs/heads/a"),
-    // thorough only
     ("refs/tags/nest", "tag_nest"),
+    // thorough only
     ("refs/heads/b/c", "c2"),
     ("refs/tags/lw", "c1"),
     ("refs/remotes/o/x", "c2"),
@@ -40,7 +40,7 @@ const REFS: [(&str, &str); 11] = [
     ("refs/tags/tree", "tag_tree"),
     ("refs/tags/blob", "blob"),
 ];
-const QUICK_REFS: usize = 3;
+const QUICK_REFS: usize = 4;
 const MAIN_REFS: usize = 7;
 /// (protocol.version, filter)
 const COMBOS: [(u8, u8); 5] = [(0, 0), (1, 1), (2, 0), (2, 1), (2, 2)];
